@@ -53,18 +53,19 @@ def discharge(obs, axioms, timeout_ms=10000, shard=None, use_cvc5=True, cover=Fa
             else:
                 a['proved'] += 1; a['backends']['z3api-cover'] = a['backends'].get('z3api-cover', 0) + 1
             continue
-        r, be, dt, info, solver = check_one(hyps, goal, axioms, timeout_ms, want_model=True)
+        # `unknown` is usually a heuristic miss, not a property of the formula (the same query is often decided in milliseconds under another
+        # seed): a short first attempt, then the full budget under a second seed, then larger budgets
+        r, be, dt, info, solver = check_one(hyps, goal, axioms, max(2000, timeout_ms // 5), want_model=True)
         a['secs'] += dt
-        for attempt in range(1, retries + 1):
-            # `unknown` is usually a heuristic miss, not a property of the formula: retry with another seed and a larger budget
+        for attempt in range(1, retries + 2):
             if r != 'unknown': break
-            r, be, dt, info, solver = check_one(hyps, goal, axioms, timeout_ms * (2 if attempt == 1 else 4), want_model=True, seed=attempt * 7919)
+            r, be, dt, info, solver = check_one(hyps, goal, axioms, timeout_ms * (1 if attempt == 1 else 2 if attempt == 2 else 4), want_model=True, seed=attempt * 7919)
+            a['secs'] += dt
             a['retries'] = a.get('retries', 0) + 1
         if r == 'unknown' and use_cvc5:
             r2 = cvc5_check(solver, timeout_s=max(5, timeout_ms // 2000))
             if r2 == 'unsat': r, be = 'unsat', 'cvc5'
             elif r2 == 'sat': r, be, info = 'sat', 'cvc5', 'cvc5: sat'
-        a['secs'] += dt
         if r == 'unsat':
             a['proved'] += 1; a['backends'][be] = a['backends'].get(be, 0) + 1
         else:
